@@ -39,6 +39,7 @@ class FlowPolicy(Policy):
     loop_unroll = 2
     max_cfgs = 40000
     emit_setitem = False
+    live_lists = True  # a container in the heap that changes while a for loop walks it is walked as Python's iterators do
 
     def __init__(self, program, events=(), no_raise=(), may_raise_all=True, cancel=True, inline=(), globals_=None,
                  summaries=None, track_calls=False, locals_=None, record_atoms=True):
